@@ -31,8 +31,16 @@ def validate(steps):
     own = {}
     depth = 0
     subs = set()
+    consumed = set()
+    live_owners = set()
     for st in steps:
         op = st["op"]
+        if op in ("COPY", "APPLY", "FLATTEN", "DROP") and st.get("c") in consumed:
+            return False
+        if op == "ADD_SUB" and (st.get("c") in consumed or st.get("child") in consumed):
+            return False
+        if op == "FLATTEN" and own.get(st.get("c")) in live_owners:
+            return False
         if op in ("NEW", "NEW_LIB"):
             if st["c"] in defined:
                 return False
@@ -77,10 +85,12 @@ def validate(steps):
             if own[st["c"]] == own[st["child"]]:
                 return False
             nent[own[st["c"]]] += 1
-            # the nested circuit is only reachable through its parent afterwards
+            if st["c"] in consumed or st["child"] in consumed:
+                return False
+            live_owners.add(own[st["c"]])
+            # the nested circuit: operations may still be added through it and it may be looked at, nothing else
             for hname in [x for x in defined if own.get(x) == own[st["child"]]]:
-                defined.discard(hname)
-                decl.discard(hname)
+                consumed.add(hname)
         elif op == "COPY":
             if st["c"] not in defined or st["as"] in defined:
                 return False
